@@ -290,9 +290,10 @@ class PoolWorld:
 class FakeWriter:
     """Recording StreamWriter stand-in."""
 
-    def __init__(self, fail_drain=False):
+    def __init__(self, fail_drain=False, block_drain=False):
         self.data = bytearray()
         self.fail_drain = fail_drain
+        self.block_drain = block_drain  # the peer never reads: once something was written, drain() does not return
         self.closed = False
 
     def write(self, b):
@@ -301,6 +302,10 @@ class FakeWriter:
     async def drain(self):
         if self.fail_drain:
             raise ConnectionResetError("Connection lost")
+        if self.block_drain:
+            import asyncio
+
+            await asyncio.get_running_loop().create_future()
 
     def close(self):
         self.closed = True
